@@ -303,6 +303,18 @@ def marshal_rules(ctx, c, mfi, paths, selft):
                 and bc[0][3][1] == ('attr', selft, 'body')
             ctx.ob('C03.D4', q, 'body-under-signature:%s' % cname, okbody,
                    'the body must be self.body encoded under self.signature')
+            if len(bc) == 1:
+                callee = prog.func('marshal.marshal')
+                bb = dict(zip(callee.params(), bc[0][3]))
+                bb.update(dict(bc[0][4]))
+                blend = bb.get('lendian', C(True))
+                ctx.ob('C03.D4', q, 'body-byte-order=header-byte-order:%s'
+                       % cname, blend == lend,
+                       'header and body of one message must be encoded in '
+                       'the same byte order (the one the first byte '
+                       'declares); the header is encoded with lendian=%s, '
+                       'the body with lendian=%s' % (
+                           term_str(lend)[:60], term_str(blend)[:60]))
         # --- D5 serial slot
         ser = p.state.heap.get((selft, 'serial'))
         ctx.ob('C03.D5', q, 'slot-serial:%s' % cname,
